@@ -293,3 +293,4 @@ not_reproduced()
 
 # level text addendum (cases added after the seeded-change rounds)
 LEVEL_TEXT = LEVEL_TEXT + ' Also: unequal shank populations; the replay checks the 1-LSB value clause on rail-to-rail data and repeats the run with 302 windows.'
+LEVEL_TEXT = LEVEL_TEXT + ' Round 6: one converter object used for two runs with different window sizes.'
